@@ -83,15 +83,68 @@ def Token.intValue? : Token → Option Int
   | .litIntS64 v => some v
   | _ => none
 
-theorem mkIntToken_value (v : Nat) (k : Option IntType) (h : k ≠ some .Signed64 ∨ v < 2 ^ 63) :
-    (mkIntToken v k).intValue? = some (v : Int) := by
+/-- a token, once built, denotes exactly the value it was built from -/
+theorem mkIntToken?_value {v : Nat} {k : Option IntType} {tok : Token} (h : mkIntToken? v k = some tok) :
+    tok.intValue? = some (v : Int) := by
+  match k, h with
+  | none, h => simp [mkIntToken?] at h; subst h; rfl
+  | some .Unsigned32, h =>
+    simp only [mkIntToken?] at h
+    split at h
+    · simp at h; subst h; rfl
+    · cases h
+  | some .Unsigned64, h => simp [mkIntToken?] at h; subst h; rfl
+  | some .Signed64, h =>
+    simp only [mkIntToken?] at h
+    split at h
+    · simp at h; subst h; rfl
+    · cases h
+
+/-- the literal does not fit the type its suffix names: `u` ⇒ 32 bits, `l` ⇒ signed 64 bits -/
+def SuffixOverflow (v : Nat) (k : Option IntType) : Prop :=
+  (k = some .Unsigned32 ∧ 2 ^ 32 ≤ v) ∨ (k = some .Signed64 ∧ 2 ^ 63 ≤ v)
+
+/-- the only literals that are not given a token -/
+theorem mkIntToken?_none {v : Nat} {k : Option IntType} :
+    mkIntToken? v k = none ↔ SuffixOverflow v k := by
+  unfold SuffixOverflow
   match k with
-  | none => rfl
-  | some .Unsigned32 => rfl
-  | some .Unsigned64 => rfl
+  | none => simp [mkIntToken?]
+  | some .Unsigned32 =>
+    simp only [mkIntToken?]
+    split
+    · simp; omega
+    · simp; omega
+  | some .Unsigned64 => simp [mkIntToken?]
   | some .Signed64 =>
-    have hv : v < 2 ^ 63 := by rcases h with h | h; exact absurd rfl h; exact h
-    simp [mkIntToken, Token.intValue?, asI64, hv]
+    simp only [mkIntToken?]
+    split
+    · simp; omega
+    · simp; omega
+
+/-- the range of the type the token's kind names: `u` ⇒ `[0, 2^32)`, `l` ⇒ `[0, 2^63)`, none / `ul` ⇒ `[0, 2^64)` -/
+def Token.intInRange : Token → Prop
+  | .litInt v | .litIntU64 v => v < 2 ^ 64
+  | .litIntU32 v => v < 2 ^ 32
+  | .litIntS64 v => 0 ≤ v ∧ v < 2 ^ 63
+  | _ => True
+
+theorem mkIntToken?_inRange {v : Nat} {k : Option IntType} {tok : Token} (hv : v < 2 ^ 64)
+    (h : mkIntToken? v k = some tok) : tok.intInRange := by
+  match k, h with
+  | none, h => simp [mkIntToken?] at h; subst h; exact hv
+  | some .Unsigned32, h =>
+    simp only [mkIntToken?] at h
+    split at h
+    · rename_i hlt; simp at h; subst h; exact hlt
+    · cases h
+  | some .Unsigned64, h => simp [mkIntToken?] at h; subst h; exact hv
+  | some .Signed64, h =>
+    simp only [mkIntToken?] at h
+    split at h
+    · rename_i hlt; simp at h; subst h
+      simp only [Token.intInRange]; omega
+    · cases h
 
 theorem decDigit_lt (b : UInt8) (d : Nat) (h : decDigit? b = some d) : d < 10 := by
   unfold decDigit? at h; split at h <;> simp at h; omega
